@@ -15,6 +15,9 @@
 #include <mutex>
 #include <random>
 #include <math.h>
+#ifndef _WIN32
+#include <unistd.h>
+#endif
 
 #include <boost/date_time/posix_time/posix_time.hpp>
 #include <boost/regex.hpp>
@@ -62,6 +65,14 @@ string createId() {
     static boost::mt19937 ran = makeIdEngine();
     static boost::uuids::basic_random_generator<boost::mt19937> gen(&ran);
     std::lock_guard<std::mutex> lock(mtx);
+#ifndef _WIN32
+    // a forked child inherits the engine's state: re-seed it there, or parent and child create the same ids
+    static pid_t owner = getpid();
+    if (owner != getpid()) {
+        ran = makeIdEngine();
+        owner = getpid();
+    }
+#endif
     boost::uuids::uuid u = gen();
     return boost::uuids::to_string(u);
 }
